@@ -262,6 +262,20 @@ def _singleton_proof(prog, f, node, S, pm, depth=0):
                 if astx.is_const(b.get("m"), 1):
                     continue
             ok = False
+        if not ok:
+            # the same, case by case: a default 1-tuple that only survives when the test for a larger set failed
+            # (T = (S,); if len(S) > 1: T = tiebreak_set(S, ...))
+            cases = astx.value_cases(f.node, T, astx.stmt_of(node, pm), pm)
+            ok = bool(cases)
+            for conds, v in cases or []:
+                if isinstance(v, ast.Call) and astx.call_name(v) == "tiebreak_set":
+                    continue
+                if isinstance(v, ast.Tuple) and len(v.elts) == 1:
+                    cl = literals(N.conj(list(conds)))
+                    inner = N.key(v.elts[0])
+                    if f"not ge(len({inner}), 2)" in cl or f"eq(len({inner}), 1)" in cl:
+                        continue
+                ok = False
         if ok:
             return f"{T} holds singletons (tiebreak_set result / bounded 1-tuple / m=1 selection)"
     # guarded by a predicate summarised as len(S) == 1
